@@ -9,6 +9,10 @@ output.rst only):
 
   names      a step 'cost_volume_confidence[.sfx]' appends, after the existing bands, exactly its own band(s)
              confidence_from_{ambiguity | risk_max,risk_min | intensity_std | interval_bounds_inf,interval_bounds_sup}[.sfx]
+             (clause C12.name: after every step the indicator coordinate is the list of the documented names in step order,
+             whole -- not cut --, none missing, none twice; checked on the products step after step, never assumed)
+  total      the real code raises nothing on a well-formed case (clause C12.total, witness class = exception type + the
+             real entry point that raised); an exception of the oracle / harness itself is never caught
   frame      existing bands, cost volume, later disparity map and validity mask are bit-identical with / without a step
   ambiguity  1 - sum_{eta = k*eta_step < eta_max} Card{d : |cv(d) - best| / (max(cv) - min(cv)) <= eta}      (naive loops)
              normalised variant: finite values in [0,1] and order-reversing w.r.t. the raw count (nothing more is stated)
@@ -164,6 +168,27 @@ def n_distinct_finite(curve):
 # --------------------------------------------------------------------------------------------------------------
 # real code runners
 # --------------------------------------------------------------------------------------------------------------
+class RealFailure(Exception):
+    """an exception raised by the code under test on a well-formed case (never by the oracle or the harness)"""
+
+    def __init__(self, where, exc, step=None):
+        super().__init__("%s raised %s: %s" % (where, type(exc).__name__, str(exc)[:300]))
+        self.where, self.exc_type, self.step = where, type(exc).__name__, step
+        self.partial = None  # products obtained before the exception, when the caller can use them
+
+    @property
+    def wclass(self):
+        return "%s-in-%s" % (self.exc_type, self.where)
+
+
+def real(where, step, fn, *args, **kwargs):
+    """call into /repo; only what is raised inside this call is attributed to the code under test"""
+    try:
+        return fn(*args, **kwargs)
+    except (Exception, SystemExit) as exc:  # pandora refuses configurations with sys.exit
+        raise RealFailure(where, exc, step) from exc
+
+
 def _quiet():
     warnings.simplefilter("ignore")
     np.seterr(all="ignore")
@@ -200,33 +225,51 @@ def make_cv(vol, type_measure, dmin):
     return cv
 
 
-def run_synthetic(vol, type_measure, dmin, steps, disparity=True):
-    """the state machine's own step functions on a hand-made cost volume; returns per-step snapshots and the datasets"""
+def band_array(dataset, shape2):
+    """(names, (row, col, n) array) of the confidence bands of a dataset; no band at all is a legal product to report on"""
+    if dataset is None or "confidence_measure" not in getattr(dataset, "data_vars", {}):
+        return [], np.zeros(tuple(shape2) + (0,), dtype=np.float32)
+    return [str(n) for n in dataset.coords["indicator"].data], np.array(dataset["confidence_measure"].data, copy=True)
+
+
+def run_synthetic(vol, type_measure, dmin, steps, disparity=True, snaps=None):
+    """the state machine's own step functions on a hand-made cost volume; returns per-step snapshots and the datasets.
+    An exception of the real code is re-raised as RealFailure; the snapshots of the steps completed before it are in the
+    caller's `snaps` list."""
     import xarray as xr
     from pandora.state_machine import PandoraMachine
 
-    machine = PandoraMachine()
+    machine = real("PandoraMachine", None, PandoraMachine)
     machine.left_cv = make_cv(vol, type_measure, dmin)
     machine.left_disparity = xr.Dataset()
     machine.right_disp_map = "none"
     machine.left_img = None
     machine.right_img = None
-    snaps = []
+    snaps = [] if snaps is None else snaps
+    shape2 = tuple(np.shape(vol)[:2])
     for key, cfg in steps:
-        machine.cost_volume_confidence_run({"pipeline": {key: copy.deepcopy(cfg)}}, key)
+        real(
+            "cost_volume_confidence_run-" + str(cfg.get("confidence_method")),
+            key,
+            machine.cost_volume_confidence_run,
+            {"pipeline": {key: copy.deepcopy(cfg)}},
+            key,
+        )
         cv = machine.left_cv
+        names, bands = band_array(cv, shape2)
+        disp_names, disp_bands = band_array(machine.left_disparity, shape2)
         snaps.append(
             {
-                "names": [str(n) for n in cv.coords["indicator"].data],
-                "bands": np.array(cv["confidence_measure"].data, copy=True),
+                "names": names,
+                "bands": bands,
                 "cost_volume": np.array(cv["cost_volume"].data, copy=True),
-                "disp_names": [str(n) for n in machine.left_disparity.coords["indicator"].data],
-                "disp_bands": np.array(machine.left_disparity["confidence_measure"].data, copy=True),
+                "disp_names": disp_names,
+                "disp_bands": disp_bands,
             }
         )
     disp = None
     if disparity:
-        machine.disparity_run({"pipeline": {"disparity": {"disparity_method": "wta"}}}, "disparity")
+        real("disparity_run", None, machine.disparity_run, {"pipeline": {"disparity": {"disparity_method": "wta"}}}, "disparity")
         disp = machine.left_disparity
     return snaps, machine.left_cv, disp
 
@@ -268,14 +311,14 @@ def run_pipeline(spec, steps):
     for key, cfg in spec.get("post", []):
         pipe[key] = copy.deepcopy(cfg)
     user_cfg = {"input": {"left": {"disp": disp}}, "pipeline": pipe}
-    machine = PandoraMachine()
-    cfg = check_configuration.update_conf(check_configuration.default_short_configuration, user_cfg)
-    left_out, right_out = pandora.run(machine, left, right, cfg)
+    machine = real("PandoraMachine", None, PandoraMachine)
+    cfg = real("update_conf", None, check_configuration.update_conf, check_configuration.default_short_configuration, user_cfg)
+    left_out, right_out = real("pandora.run", None, pandora.run, machine, left, right, cfg)
     return left_out, right_out, machine
 
 
 def band_dict(dataset):
-    if "confidence_measure" not in dataset.data_vars:
+    if dataset is None or "confidence_measure" not in getattr(dataset, "data_vars", {}):
         return [], {}
     names = [str(n) for n in dataset.coords["indicator"].data]
     data = np.asarray(dataset["confidence_measure"].data)
@@ -303,6 +346,34 @@ class Ctx:
 
     def note(self, what):
         self.obs[what] = self.obs.get(what, 0) + 1
+
+    def failed(self, failure):
+        """the real code raised on a well-formed case"""
+        self.step = None
+        self.bad("C12.total", failure.wclass, str(failure), {"step": failure.step} if failure.step else None)
+
+    def pick(self, dataset, wanted, what):
+        """the bands `wanted` of a product of the real code, or None (reported under the naming clause) when they are not
+        there under their documented names, or when a name occurs twice"""
+        names, bands = band_dict(dataset)
+        wclass = name_fault([], names, wanted, exact=False)
+        if wclass:
+            self.bad("C12.name", wclass, "%s: bands %s, expected to hold %s" % (what, names, wanted))
+            return None
+        return [bands[n] for n in wanted]
+
+
+def name_fault(prev_names, names, own, exact=True):
+    """None when `names` is `prev_names` followed by the step's own documented names (either order within the step: the
+    statement does not order the two bands of one step), else the witness class.  exact=False: only that the own names are
+    there, once each, and that no name occurs twice."""
+    if len(set(names)) != len(names):
+        return "duplicate-band-name"
+    if exact and (names[: len(prev_names)] != prev_names or sorted(names[len(prev_names) :]) != sorted(own)):
+        return "unexpected-band-names"
+    if any(n not in names for n in own):
+        return "unexpected-band-names"
+    return None
 
 
 def tested_pixels(vol):
@@ -501,23 +572,35 @@ def check_synthetic(rec, obs, vol, tm, dmin, steps, alone=True, count_case=None,
     wit = {"kind": "synthetic", "cost_volume": vol, "type_measure": tm, "disp_min": dmin, "steps": [[k, c] for k, c in steps]}
     real_ctx = Ctx(rec, obs, wit)
     ctx = Ctx(Recorder(max_violations=1000), obs, wit) if shrink else real_ctx
+    try:
+        _check_synthetic(ctx, vol, tm, dmin, steps, alone, count_case)
+    except RealFailure as failure:  # only what the code under test raised; an oracle error propagates
+        ctx.failed(failure)
+    ctx.step = None
+    if shrink:
+        _forward_shrunk(real_ctx, ctx, obs, vol, tm, dmin, steps)
+        return real_ctx.found
+    return ctx.found
+
+
+def _check_synthetic(ctx, vol, tm, dmin, steps, alone, count_case):
     disps = np.arange(dmin, dmin + vol.shape[2])
 
     base_snaps, base_cv, base_disp = run_synthetic(vol, tm, dmin, [])
-    snaps, cv, disp = run_synthetic(vol, tm, dmin, steps)
+    snaps, failure = [], None
+    try:
+        _, cv, disp = run_synthetic(vol, tm, dmin, steps, snaps=snaps)
+    except RealFailure as exc:
+        failure = exc  # the steps completed before it are still checked (a wrong name is often what makes a later step raise)
 
     # names and frame, step after step
     prev_names, prev_bands = [], np.zeros(vol.shape[:2] + (0,), dtype=np.float32)
     for (key, cfg), snap in zip(steps, snaps):
         own = expected_names(key, cfg)
         names = snap["names"]
-        if names[: len(prev_names)] != prev_names or sorted(names[len(prev_names) :]) != sorted(own):
-            dup = len(set(names)) != len(names)
-            ctx.bad(
-                "C12.name",
-                "duplicate-band-name" if dup else "unexpected-band-names",
-                "after step %r: bands %s, expected %s + %s" % (key, names, prev_names, own),
-            )
+        wclass = name_fault(prev_names, names, own)
+        if wclass:
+            ctx.bad("C12.name", wclass, "after step %r: bands %s, expected %s + %s" % (key, names, prev_names, own))
         if snap["bands"].shape[2] < len(prev_names) or not same(snap["bands"][:, :, : len(prev_names)], prev_bands):
             ctx.bad("C12.frame.bands", "existing-band-changed", "step %r changed an existing band" % key)
         if not same(snap["cost_volume"], vol):
@@ -525,6 +608,8 @@ def check_synthetic(rec, obs, vol, tm, dmin, steps, alone=True, count_case=None,
         if snap["disp_names"] != names or not same(snap["disp_bands"], snap["bands"]):
             ctx.bad("C12.frame.disp_bands", "disparity-dataset-bands-differ", "after step %r the disparity dataset's bands differ from the cost volume's" % key)
         prev_names, prev_bands = names, snap["bands"]
+    if failure is not None:
+        raise failure
 
     # later disparity map / validity mask / bands carried to the disparity dataset
     if not same(disp["disparity_map"].data, base_disp["disparity_map"].data):
@@ -534,8 +619,8 @@ def check_synthetic(rec, obs, vol, tm, dmin, steps, alone=True, count_case=None,
     if not same(cv["cost_volume"].data, base_cv["cost_volume"].data):
         ctx.bad("C12.frame.cost_volume", "cost-volume-changed-after-disparity", "cost volume differs with / without the confidence steps")
     if steps:
-        dnames, dbands = band_dict(disp)
-        if dnames != prev_names or not same(disp["confidence_measure"].data, prev_bands):
+        dnames, dbands = band_array(disp, vol.shape[:2])
+        if dnames != prev_names or not same(dbands, prev_bands):
             ctx.bad("C12.frame.disp_bands", "bands-lost-at-disparity", "disparity dataset bands %s vs cost volume bands %s" % (dnames, prev_names))
 
     names, bands = band_dict(cv)
@@ -545,7 +630,7 @@ def check_synthetic(rec, obs, vol, tm, dmin, steps, alone=True, count_case=None,
         for idx, (key, cfg) in enumerate(steps):
             own = expected_names(key, cfg)
             if any(n not in bands for n in own):
-                continue
+                continue  # reported by the naming clause above
             ctx.step = key
             check_step_bands(ctx, vol, disps, tm, key, cfg, bands, count_case)
             method = cfg["confidence_method"]
@@ -554,14 +639,16 @@ def check_synthetic(rec, obs, vol, tm, dmin, steps, alone=True, count_case=None,
             if alone and len(steps) > len(solo_steps):
                 # "exactly as they would be without" the other steps: same band from the step on its own
                 _, solo_cv, _ = run_synthetic(vol, tm, dmin, solo_steps, disparity=False)
-                _, solo_bands = band_dict(solo_cv)
-                for n in own:
-                    if n in solo_bands and not same(solo_bands[n], bands[n]):
+                solo = ctx.pick(solo_cv, own, "steps %s on their own" % [k for k, _ in solo_steps])
+                for n, band in zip(own, solo or []):
+                    if not same(band, bands[n]):
                         ctx.bad("C12.frame.bands", "band-depends-on-other-steps", "band %s differs when the other steps are removed" % n)
             if method == "ambiguity" and cfg.get("normalization", True):
                 raw_cfg = dict(cfg, normalization=False)
                 _, raw_cv, _ = run_synthetic(vol, tm, dmin, [(key, raw_cfg)], disparity=False)
-                check_ambiguity_normalised(ctx, bands[own[0]], band_dict(raw_cv)[1][own[0]])
+                raw = ctx.pick(raw_cv, own, "step %r alone, not normalised" % key)
+                if raw:
+                    check_ambiguity_normalised(ctx, bands[own[0]], raw[0])
             if method == "interval_bounds":
                 reg = cfg.get("regularization", False)
                 if not reg or cfg.get("quantile_regularization", 1.0) == 1.0:
@@ -569,14 +656,9 @@ def check_synthetic(rec, obs, vol, tm, dmin, steps, alone=True, count_case=None,
                 if reg and cfg.get("quantile_regularization", 1.0) == 1.0:
                     raw_cfg = dict(cfg, regularization=False)
                     _, raw_cv, _ = run_synthetic(vol, tm, dmin, [(key, raw_cfg)], disparity=False)
-                    _, raw_bands = band_dict(raw_cv)
-                    check_widen(ctx, bands[own[0]], bands[own[1]], raw_bands[own[0]], raw_bands[own[1]])
-
-    ctx.step = None
-    if shrink:
-        _forward_shrunk(real_ctx, ctx, obs, vol, tm, dmin, steps)
-        return real_ctx.found
-    return ctx.found
+                    raw = ctx.pick(raw_cv, own, "step %r alone, not regularised" % key)
+                    if raw:
+                        check_widen(ctx, bands[own[0]], bands[own[1]], raw[0], raw[1])
 
 
 def _forward_shrunk(real_ctx, tmp_ctx, obs, vol, tm, dmin, steps):
@@ -608,21 +690,10 @@ def _forward_shrunk(real_ctx, tmp_ctx, obs, vol, tm, dmin, steps):
 # --------------------------------------------------------------------------------------------------------------
 # case kind 2: pandora.run with / without each step
 # --------------------------------------------------------------------------------------------------------------
-def check_pipeline(rec, obs, spec, steps):
-    import pandora.constants as cst
-
-    wit = dict(spec)
-    wit.update({"kind": "pipeline", "steps": [[k, c] for k, c in steps]})
-    ctx = Ctx(rec, obs, wit)
-    left, right, machine = run_pipeline(spec, steps)
-    names, bands = band_dict(left)
-    cv_names, cv_bands = band_dict(machine.left_cv)
-    vol = np.array(machine.left_cv["cost_volume"].data, dtype=np.float32)
-    disps = np.asarray(machine.left_cv.coords["disp"].data)
-    tm = machine.left_cv.attrs["type_measure"]
+def pipeline_names_ok(ctx, steps, names, what):
+    """the bands of a pandora.run product are, in pipeline order, the documented names of its steps (each step's own bands in
+    either order), none twice; bands of the validation step (confidence_from_left_right...) are not this property's"""
     extra = [n for n in names if not n.startswith("confidence_from_left_right")]
-
-    # names: every step appended its own bands, in pipeline order
     want, ok_names = [], True
     for key, cfg in steps:
         own = expected_names(key, cfg)
@@ -630,17 +701,56 @@ def check_pipeline(rec, obs, spec, steps):
         if sorted(got) != sorted(own):
             ok_names = False
         want += own
-    if not ok_names or len(extra) != len(want):
-        dotted = any(k.count(".") > 1 for k, _ in steps)
+    ok_names = ok_names and len(extra) == len(want)
+    dotted = any(k.count(".") > 1 for k, _ in steps)
+    if not ok_names:
         ctx.bad(
             "C12.name",
             ("multi-dot-step-key-suffix-dropped" if dotted else "unexpected-band-names"),
-            "pipeline steps %s produced bands %s, expected %s" % ([k for k, _ in steps], extra, want),
+            "%s steps %s produced bands %s, expected %s" % (what, [k for k, _ in steps], extra, want),
         )
     if len(set(names)) != len(names):
-        if not any(k.count(".") > 1 for k, _ in steps):
-            ctx.bad("C12.name", "duplicate-band-name", "bands %s" % names)
-        return ctx.found
+        if not dotted:
+            ctx.bad("C12.name", "duplicate-band-name", "%s steps %s: bands %s" % (what, [k for k, _ in steps], names))
+        return False
+    return ok_names
+
+
+def check_pipeline(rec, obs, spec, steps, memo=None):
+    """memo (optional, one per spec): products of pandora.run already obtained for this very spec and step list -- the many
+    orderings of a small pool share their with/without runs; the products are only read.  replay() never uses it."""
+    wit = dict(spec)
+    wit.update({"kind": "pipeline", "steps": [[k, c] for k, c in steps]})
+    ctx = Ctx(rec, obs, wit)
+    try:
+        _check_pipeline(ctx, spec, steps, memo)
+    except RealFailure as failure:  # only what the code under test raised; an oracle error propagates
+        ctx.failed(failure)
+    ctx.step = None
+    return ctx.found
+
+
+def _check_pipeline(ctx, spec, steps, memo=None):
+    import pandora.constants as cst
+
+    def run_pipeline(spec_, steps_):  # shadows the module-level runner inside this check only
+        if memo is None:
+            return globals()["run_pipeline"](spec_, steps_)
+        ident = repr(steps_)
+        if ident not in memo:
+            memo[ident] = globals()["run_pipeline"](spec_, steps_)  # a RealFailure is not kept
+        return memo[ident]
+
+    left, right, machine = run_pipeline(spec, steps)
+    names, bands = band_dict(left)
+    cv_names, cv_bands = band_dict(machine.left_cv)
+    vol = np.array(machine.left_cv["cost_volume"].data, dtype=np.float32)
+    disps = np.asarray(machine.left_cv.coords["disp"].data)
+    tm = machine.left_cv.attrs["type_measure"]
+
+    # names: every step appended its own bands, in pipeline order
+    if not pipeline_names_ok(ctx, steps, names, "pipeline"):
+        return  # the remaining clauses look the bands up by their documented names
 
     # frame: remove each step in turn (and the steps that read its band)
     variants = [[]] if steps else []
@@ -654,8 +764,10 @@ def check_pipeline(rec, obs, spec, steps):
             continue
         seen.add(ident)
         left2, right2, machine2 = run_pipeline(spec, sub)
-        _, bands2 = band_dict(left2)
+        names2, bands2 = band_dict(left2)
         label = "without " + ",".join(k for k, _ in steps if (k, _) not in sub) if sub else "without any confidence step"
+        if not pipeline_names_ok(ctx, sub, names2, "pipeline " + label):
+            continue  # the shorter pipeline is a case of its own
         for n, b in bands2.items():
             if n not in bands or not same(bands[n], b):
                 ctx.bad("C12.frame.bands", "existing-band-changed", "band %s differs %s" % (n, label))
@@ -689,7 +801,9 @@ def check_pipeline(rec, obs, spec, steps):
             method = cfg["confidence_method"]
             if method == "ambiguity" and cfg.get("normalization", True):
                 _, _, machine3 = run_pipeline(spec, [(key, dict(cfg, normalization=False))])
-                check_ambiguity_normalised(ctx, bands[own[0]], band_dict(machine3.left_cv)[1][own[0]])
+                raw = ctx.pick(machine3.left_cv, own, "step %r alone, not normalised" % key)
+                if raw:
+                    check_ambiguity_normalised(ctx, bands[own[0]], raw[0])
             if method == "std_intensity":
                 img, w = np.asarray(spec["left"], dtype=np.float64), spec["matching_cost"]["window_size"]
                 h = w // 2
@@ -709,9 +823,9 @@ def check_pipeline(rec, obs, spec, steps):
                 if reg and cfg.get("quantile_regularization", 1.0) == 1.0:
                     raw = [(k, dict(c, regularization=False)) if k == key else (k, c) for k, c in steps]
                     left4, _, _ = run_pipeline(spec, raw)
-                    _, bands4 = band_dict(left4)
-                    check_widen(ctx, bands[own[0]], bands[own[1]], bands4[own[0]], bands4[own[1]])
-    return ctx.found
+                    raw4 = ctx.pick(left4, own, "step %r not regularised" % key)
+                    if raw4:
+                        check_widen(ctx, bands[own[0]], bands[own[1]], raw4[0], raw4[1])
 
 
 # --------------------------------------------------------------------------------------------------------------
@@ -723,7 +837,11 @@ def check_regularization(rec, obs, inf, sup, amb, thr, kernel, depth):
     inf, sup, amb = np.array(inf, dtype=np.float32), np.array(sup, dtype=np.float32), np.array(amb, dtype=np.float32)
     wit = {"kind": "regularization", "inf": inf, "sup": sup, "ambiguity": amb, "ambiguity_threshold": thr, "ambiguity_kernel_size": kernel, "vertical_depth": depth}
     ctx = Ctx(rec, obs, wit)
-    inf_reg, sup_reg, mask = interval_regularization(inf.copy(), sup.copy(), amb.copy(), thr, kernel, depth, 1.0)
+    try:
+        inf_reg, sup_reg, mask = real("interval_regularization", None, interval_regularization, inf.copy(), sup.copy(), amb.copy(), thr, kernel, depth, 1.0)
+    except RealFailure as failure:
+        ctx.failed(failure)
+        return ctx.found, False
     check_widen(ctx, inf_reg, sup_reg, inf, sup, "-direct")
     changed = not (same(inf_reg, inf) and same(sup_reg, sup))
     return ctx.found, bool(mask.any()) and changed
@@ -861,6 +979,63 @@ MULTI_DOT = (
 )
 
 
+# steps whose band names all have different lengths (the indicator coordinate is a fixed-width string array: a name longer
+# than every earlier one must come out whole); length of the first own band name in the comment
+NAME_POOL_SYNTHETIC = [
+    ("cost_volume_confidence", risk_cfg((0.2, 0.1))),  # confidence_from_risk_max 24
+    ("cost_volume_confidence.a", amb_cfg((0.2, 0.1), False)),  # confidence_from_ambiguity.a 27
+    ("cost_volume_confidence.amb", amb_cfg((0.7, 0.3), False)),  # confidence_from_ambiguity.amb 29
+    ("cost_volume_confidence.int", ib_cfg(0.9)),  # confidence_from_interval_bounds_inf.int 39
+    ("cost_volume_confidence.a_longer_suffix", risk_cfg((0.7, 0.3))),  # confidence_from_risk_max.a_longer_suffix 40
+]
+NAME_POOL_PIPELINE = [
+    ("cost_volume_confidence", risk_cfg((0.2, 0.1))),  # confidence_from_risk_max 24
+    ("cost_volume_confidence.amb", amb_cfg((0.2, 0.1), False)),  # confidence_from_ambiguity.amb 29
+    ("cost_volume_confidence.std", {"confidence_method": "std_intensity"}),  # confidence_from_intensity_std.std 33
+    ("cost_volume_confidence.int", ib_cfg(0.9)),  # confidence_from_interval_bounds_inf.int 39
+]
+NAME_VOLUMES = [
+    np.array([[[0, 1], [1, 0]], [[2, 0], [0, 4]]], dtype=np.float32),
+    np.array([[[0, 1, 2], [1, 0, float("nan")], [4, 4, 0]], [[2, 0, 1], [0, 4, 4], [1, 2, 0]]], dtype=np.float32),
+]
+NAME_SPEC = {
+    "left": np.array([[1, 2, 3, 5], [5, 3, 2, 1]]),
+    "right": np.array([[2, 1, 5, 3], [1, 5, 3, 2]]),
+    "lmask": np.zeros((2, 4), dtype=int),
+    "rmask": np.zeros((2, 4), dtype=int),
+    "disp": [-1, 1],
+    "matching_cost": {"matching_cost_method": "sad", "window_size": 1, "subpix": 1},
+    "post": [],
+}
+NAME_SPEC_W3 = {
+    "left": np.array([[1, 2, 3, 5, 2], [5, 3, 2, 1, 1], [2, 2, 5, 3, 1], [1, 5, 1, 2, 3]]),
+    "right": np.array([[2, 1, 5, 3, 3], [1, 5, 3, 2, 2], [3, 2, 2, 5, 1], [5, 1, 1, 3, 2]]),
+    "lmask": np.zeros((4, 5), dtype=int),
+    "rmask": np.zeros((4, 5), dtype=int),
+    "disp": [-1, 1],
+    "matching_cost": {"matching_cost_method": "sad", "window_size": 3, "subpix": 1},
+    "post": [],
+}
+
+
+def name_stacks(pool, sizes):
+    """every ordered selection of `sizes` steps of the pool, shortest stacks first: every band name length order occurs"""
+    for size in sizes:
+        for stack in itertools.permutations(pool, size):
+            yield list(stack)
+
+
+def regularised_name_stacks():
+    """a regularised interval step looks its ambiguity band up BY NAME among bands of shorter / longer names"""
+    pool = NAME_POOL_SYNTHETIC
+    nrm = ("cost_volume_confidence.nrm", amb_cfg((0.2, 0.1), True))  # confidence_from_ambiguity.nrm 29
+    reg = (
+        "cost_volume_confidence.reg",
+        ib_cfg(0.9, {"ambiguity_indicator": "nrm", "ambiguity_threshold": 0.6, "ambiguity_kernel_size": 1, "vertical_depth": 0}),
+    )
+    return [[pool[0], nrm, reg], [pool[1], nrm, reg], [nrm, pool[0], reg], [nrm, reg, pool[4]], [pool[3], nrm, reg], [nrm, reg]]
+
+
 def run(tier, seed):
     _quiet()
     _set_threads()
@@ -899,6 +1074,20 @@ def run(tier, seed):
         timing[name] = round(time.time() - t_last[0], 1)
         t_last[0] = time.time()
 
+    # ---- 0. band bookkeeping: stacks whose band names have every length order (no random choice: `rng` is untouched) --
+    sizes = (2, 3) if tier == "quick" else (2, 3, 4, 5)
+    stacks = list(name_stacks(NAME_POOL_SYNTHETIC, sizes))
+    stacks = stacks[:20] + regularised_name_stacks() + stacks[20:]  # pairs, then regularised triples, then the rest
+    for i, steps in enumerate(stacks):
+        vol = NAME_VOLUMES[i % len(NAME_VOLUMES)] if i >= 20 else NAME_VOLUMES[0]
+        found = check_synthetic(rec, obs, vol, "min", -1, steps, alone=True)
+        rec.case(
+            key=("names", vol.tobytes(), vol.shape, repr(steps)),
+            nontrivial=len(steps) >= 2,
+            sample=None if i else {"kind": "synthetic", "cost_volume": vol, "type_measure": "min", "disp_min": -1, "steps": [k + ":" + c["confidence_method"] for k, c in steps], "violations": len(found)},
+        )
+    n_name_stacks = len(stacks)
+    lap("0 band names, synthetic")
     # ---- 1b. every cost curve of length D between every pair of global extrema, all methods stacked --------------
     pairs = [(lo, hi) for lo in FINITE for hi in FINITE if lo < hi]
 
@@ -943,9 +1132,15 @@ def run(tier, seed):
     packed([4, 5])
     lap("1b packed curves D>=4")
     # ---- 2. pandora.run with / without each step -----------------------------------------------------------------
-    specs = [MULTI_DOT] + pipeline_specs(tier, seed)
+    name_specs = [(NAME_SPEC, st) for st in name_stacks(NAME_POOL_PIPELINE, (2, 3) if tier == "quick" else (2, 3, 4))]
+    if tier != "quick":
+        name_specs += [(NAME_SPEC_W3, st) for st in name_stacks(NAME_POOL_PIPELINE, (2, 3, 4))]
+    else:
+        name_specs += [(NAME_SPEC_W3, st) for st in name_stacks(NAME_POOL_PIPELINE[1:], (2, 3))]
+    specs = [MULTI_DOT] + name_specs + pipeline_specs(tier, seed)
+    memos = {id(NAME_SPEC): {}, id(NAME_SPEC_W3): {}}
     for spec, steps in specs:
-        found = check_pipeline(rec, obs, spec, steps)
+        found = check_pipeline(rec, obs, spec, steps, memos.get(id(spec)))
         rec.case(
             key=("pipe", repr(jsonable(spec)), repr(steps)),
             nontrivial=True,
@@ -975,28 +1170,48 @@ def run(tier, seed):
     lap("3 regularization")
     res = rec.result(
         bound=(
+            "(0) band bookkeeping: every ordered selection of %s steps out of 5 whose band names have 5 different lengths (risk without "
+            "suffix 24 characters, ambiguity '.a' 27, ambiguity '.amb' 29, interval_bounds '.int' 39, risk '.a_longer_suffix' 40) plus 6 "
+            "stacks where a regularised interval_bounds step reads a normalised ambiguity band by name among shorter / longer names "
+            "(%d stacks), on a literal 2x2x2 and a 2x3x3 (one NaN) min-type volume, every step also run on its own; "
             "(1a) %d seeded-random cost volumes of each shape 2x2x2, 2x2x3, 2x2x4, 3x4x5 over {NaN,0,1,2,4} (NaN rate 0/.15/.35), min- and "
             "max-type, first disparity in {-2,-1,0}, 2..7 stacked confidence steps in random order (ambiguity raw / normalised, risk, "
             "interval_bounds x2, regularised interval_bounds with ambiguity_threshold {.3,.6,.9}, kernel {1,3,5}, depth {0,1,2}); "
             "(1b) EVERY cost curve of length D in {2,3,4,5}%s over {NaN} + the values of {0,1,2,4} between every pair of global extrema "
             "(6 pairs), min- and max-type, ambiguity and risk for eta_max in {0.2,0.7} x eta_step in {0.01,0.1,0.3}, interval_bounds for "
             "possibility_threshold in {0,.5,.7,.9,1}, normalised ambiguity once per volume -- the 19 steps stacked in a seeded-random order; "
-            "(2) %d pandora.run pipelines (3x4, 4x5 sad/ssd window 1, 5x6 sad/zncc window 3, images over {1,2,3,5}, optional masked pixel "
+            "(2) %d pandora.run pipelines: the two-dot step key case, %d ordered selections of %s steps out of {risk (no suffix), ambiguity "
+            "'.amb', std_intensity '.std', interval_bounds '.int'} (band name lengths 24 < 29 < 33 < 39, every length order) on a 2x4 sad "
+            "window-1 and a 4x5 sad window-3 pair, and seeded-random ones (3x4, 4x5 sad/ssd window 1, 5x6 sad/zncc window 3, images over {1,2,3,5}, optional masked pixel "
             "left / right, disparity ranges [-1,0],[-1,1],[-2,1],[-2,2], optional median filter / vfit refinement / cross-checking after "
             "WTA), each run with all steps, without each step, and without any; "
             "(3) interval_regularization (quantile 1) on all 2x3 ambiguity maps over {0.2,1} and %d random 3x4/4x6/3x7 maps over "
             "{0.2,0.7,1,NaN}, kernel {1,3,5} x depth {0,1,2,3}, integer bounds with NaN holes"
-            % (n_small, " (D=5: seeded 15% sample)" if tier == "quick" else "", len(specs), 300 if tier == "quick" else 6000)
+            % (
+                "2..3" if tier == "quick" else "2..5",
+                n_name_stacks,
+                n_small,
+                " (D=5: seeded 15% sample)" if tier == "quick" else "",
+                len(specs),
+                len(name_specs),
+                "2..3" if tier == "quick" else "2..4",
+                300 if tier == "quick" else 6000,
+            )
         ),
         rule=(
-            "An evaluation is: (1a) one volume x type x step stack; (1b) one (cost curve, volume min, volume max, measure type, method "
+            "An evaluation is: (0) and (1a) one volume x type x step stack; (1b) one (cost curve, volume min, volume max, measure type, method "
             "configuration) pixel comparison -- curves are packed, all at once, in a (N/5)x5xD volume whose extrema are pinned, run through "
             "the state machine's own cost_volume_confidence_run; only pixels with >= 2 distinct finite costs are compared and counted; "
-            "(2) one pipeline specification (with its with/without runs); (3) one interval_regularization call, non-trivial iff some "
+            "(2) one pipeline specification (with its with/without runs; the orderings of the band-name pool share the products of "
+            "identical pandora.run calls); (3) one interval_regularization call, non-trivial iff some "
             "pixel was regularised and some bound moved.  Distinct = distinct key (sha1 of the inputs).  Integer costs => ambiguity "
             "counts and interval bounds are compared exactly; risk means and std_intensity with |a-b| <= 1e-5 (1+|b|); frame clauses "
             "(bands, cost volume, disparity map, validity mask) bit for bit (nan-aware).  A cost whose normalised distance to the best is "
             "within 1e-6 of an eta sample, or a NaN cost, may be counted or not (both readings accepted, see observations).  "
+            "C12.name is evaluated on the indicator coordinate the real code produced after EVERY step (documented names in step order, "
+            "whole, none missing, none twice) and on every product used by another clause; an exception raised inside a call into /repo "
+            "(and only there) is the violation C12.total with witness class <exception type>-in-<entry point>, the steps completed "
+            "before it are still checked.  "
             "A violation found on a packed volume is re-run on the 2x2xD volume [[curve, pad],[pad, pad]] (pad = min,max,min,...) and "
             "reported with that witness.  numba threads limited to 2 by the harness (launch overhead on a shared box), kernels still run parallel."
         ),
